@@ -24,7 +24,10 @@ func c03ResponseOutlivesContext(ctx *core.Ctx, r *RT) {
 			switch c.FullName() {
 			case "context.WithTimeout", "context.WithCancel", "context.WithDeadline":
 			default:
-				continue
+				// a helper of the package that returns (context.Context, context.CancelFunc): ToContext
+				if c.Static == nil || c.Static.Pkg != r.Pkg || c.Static.Signature.Results().Len() != 2 || c.Static.Signature.Results().At(1).Type().String() != "context.CancelFunc" {
+					continue
+				}
 			}
 			tup := c.Instr.Value()
 			if tup == nil || tup.Referrers() == nil {
@@ -90,6 +93,6 @@ func c03ResponseOutlivesContext(ctx *core.Ctx, r *RT) {
 		}
 	}
 	if n == 0 {
-		ctx.Unresolved("C03.R12", "HTTP client", "no request context created with context.With* found in the runtime")
+		ctx.Discharge("C03.R12", "HTTP client › no cancellable request context is created by the runtime", "", "nothing to cancel before the body is read")
 	}
 }
